@@ -132,9 +132,9 @@ const STRINGS: &[&str] = &[
     "'another quite long literal'",
     // text that the printer must keep escaped: a backslash before `uD83D` next to a non-ASCII character, a backquote and
     // `${` (both end up inside template literals as literal substitutions), escapes that cannot be printed raw
-    "'[\u{e9}\\\\uD83D\\\\uDE00]'", "'`'", "'${'", "'\\u{1F600}\\x41\\0'", "\"\u{20ac}\\\\\"",
+    "'[\u{e9}\\\\uD83D\\\\uDE00]'", "'`'", "'${'", "'\\u{1F600}\\x41\\0'", "\"\u{20ac}\\\\\"", "'ls\\u2028ps\\u2029end'",
 ];
-const NUMS: &[&str] = &["1", "0", "2", "10", "1.5", "0x10", "1e3"];
+const NUMS: &[&str] = &["1", "0", "2", "10", "1.5", "0x10", "1e3", "1_000", "0b101", "0o17", ".5", "5."];
 const OTHER_LITS: &[&str] = &["null", "true", "false", "1n", "/re/g", "/a+b/", "undefined"];
 // no `name`: an anonymous function hoisted into a temporary is named after it (the property tolerates the injected names)
 // two names end in a multi-byte character: an operand that ends there has its last byte inside a character
@@ -338,7 +338,7 @@ impl<'t, 'a> Gen<'t, 'a> {
                 E::Index { obj: obj.bx(), idx: idx.bx(), optional: false }
             }
             10 => {
-                let op = *self.t.pick(&["+=", "=", "+=", "-=", "??=", "+=", "||="]);
+                let op = *self.t.pick(&["+=", "=", "+=", "-=", "??=", "+=", "||=", "&&=", "**="]);
                 let target = self.assignable_ident();
                 let r = self.expr(d1);
                 if op == "+=" {
@@ -535,7 +535,7 @@ impl<'t, 'a> Gen<'t, 'a> {
     }
 
     fn quasi(&mut self) -> String {
-        self.t.pick(&["", "q", " w ", "caf\u{e9} ", "\\n", "line1\nline2 ", "$", "\\u00e9", "{}", "\u{20ac}\\x24{n}", "\u{ab}\\x60", "\\x5c\u{e9}", "\\`", "\\${", "\u{e9}\\\\"]).to_string()
+        self.t.pick(&["", "q", " w ", "caf\u{e9} ", "\\n", "line1\nline2 ", "$", "\\u00e9", "{}", "\u{20ac}\\x24{n}", "\u{ab}\\x60", "\\x5c\u{e9}", "\\`", "\\${", "\u{e9}\\\\", "ls\\u2028ps\\u2029"]).to_string()
     }
 
     fn template(&mut self, d: usize) -> E {
@@ -1851,7 +1851,7 @@ impl<'t, 'a> Gen<'t, 'a> {
             let se = self.expr(d);
             self.scopes.pop();
             self.tag("class-setter-private");
-            members.push(format!("#priv = 1;\nset sv({sp}) {{ this.#priv = {}; }}\nget pv() {{ return this.#priv; }}", Self::arg_text(&se)));
+            members.push(format!("#priv = 1;\nset sv({sp}) {{ this.#priv = {}; }}\nget pv() {{ return this.#priv; }}\nstatic has(o) {{ return #priv in o; }}", Self::arg_text(&se)));
         }
         if self.t.chance(80) {
             self.tag("static-block");
